@@ -140,52 +140,99 @@ Section IncludeSkip.
       | _ => DKeep
       end
     else DKeep.
-  (* None: the node is removed; Some ds: the directives that stay *)
-  Fixpoint eval_dirs (ds : list directive) : option (list directive) :=
-    match ds with
-    | [] => Some []
-    | d :: r =>
-      match dir_verdict d with
-      | DRemoveNode => None
-      | DDropDirective => eval_dirs r
-      | DKeep => match eval_dirs r with Some r' => Some (d :: r') | None => None end
+  (* None: the node is removed; Some ds: the directives that stay.
+     The walker ranges over the directive refs it saw when it entered the node
+     (`for _, i := range Directives.Refs`, slice header copied) while RemoveDirectiveFromNode deletes
+     from that same backing array in place (`append(refs[:i], refs[i+1:]...)`): after a directive is
+     dropped at position k the loop's next read, position k+1, already holds what was at k+2 -- the
+     directive that followed the dropped one is not visited in this walk whenever at least two more
+     follow it, and the last one is visited twice.  [b] is the backing array (each directive tagged
+     with its original position = its ref), its first [m] cells are the node's live directive list. *)
+  Definition del_at {A : Type} (i m : nat) (b : list A) : list A :=
+    firstn i b ++ skipn (Datatypes.S i) (firstn m b) ++ skipn (pred m) b.
+  Fixpoint index_of (id : nat) (l : list (nat * directive)) : option nat :=
+    match l with
+    | [] => None
+    | (j, _) :: r => if Nat.eqb id j then Some O
+                     else match index_of id r with Some i => Some (Datatypes.S i) | None => None end
+    end.
+  Fixpoint walk_dirs (todo k m : nat) (b : list (nat * directive)) : option (list directive) :=
+    match todo with
+    | O => Some (map snd (firstn m b))
+    | Datatypes.S t =>
+      match nth_error b k with
+      | None => Some (map snd (firstn m b))
+      | Some (id, d) =>
+        match dir_verdict d with
+        | DRemoveNode => None
+        | DKeep => walk_dirs t (Datatypes.S k) m b
+        | DDropDirective =>
+          match index_of id (firstn m b) with
+          | Some i => walk_dirs t (Datatypes.S k) (pred m) (del_at i m b)
+          | None => walk_dirs t (Datatypes.S k) m b
+          end
+        end
       end
     end.
+  Definition eval_dirs (ds : list directive) : option (list directive) :=
+    let n := length ds in
+    walk_dirs n O n (combine (seq O n) ds).
 
-  Fixpoint is_sel (s : selection) : list selection :=
-    let is_list := fix go (l : list selection) : list selection :=
-                     match l with [] => [] | x :: r => is_sel x ++ go r end in
-    let close := fun (orig res : list selection) =>
-                   match orig, res with _ :: _, [] => [placeholder] | _, _ => res end in
-    match s with
-    | SField a n args ds sub =>
-      match eval_dirs ds with
-      | None => []
-      | Some ds' => [SField a n args ds' (close sub (is_list sub))]
+  (* One walk over a node (None: the node was removed), and walkSelectionSet: the children are
+     walked in order; as soon as one of them is removed the selection refs have changed and the
+     walker starts over with the first child (`continue RefsChanged`) -- children walked before
+     are walked again, which is when a directive skipped by the first walk gets its turn.  A set
+     that becomes empty receives the placeholder at once. *)
+  Fixpoint is_node (fuel : nat) (s : selection) : option selection :=
+    match fuel with
+    | O => Some s
+    | Datatypes.S f =>
+      match s with
+      | SField a n args ds sub =>
+        match eval_dirs ds with
+        | None => None
+        | Some ds' => Some (SField a n args ds' (is_set f sub))
+        end
+      | SInline c ds sub =>
+        match eval_dirs ds with
+        | None => None
+        | Some ds' => Some (SInline c ds' (is_set f sub))
+        end
+      | SSpread fn ds =>
+        match eval_dirs ds with
+        | None => None
+        | Some ds' => Some (SSpread fn ds')
+        end
       end
-    | SInline c ds sub =>
-      match eval_dirs ds with
-      | None => []
-      | Some ds' => [SInline c ds' (close sub (is_list sub))]
-      end
-    | SSpread f ds =>
-      match eval_dirs ds with
-      | None => []
-      | Some ds' => [SSpread f ds']
-      end
+    end
+  with is_set (fuel : nat) (l : list selection) : list selection :=
+    match fuel with
+    | O => l
+    | Datatypes.S f =>
+      let '(l', removed) :=
+          (fix pass (l : list selection) : list selection * bool :=
+             match l with
+             | [] => ([], false)
+             | s :: r =>
+               match is_node f s with
+               | None => (r, true)
+               | Some s' => let '(r', b) := pass r in (s' :: r', b)
+               end
+             end) l in
+      if removed then is_set f (match l' with [] => [placeholder] | _ :: _ => l' end) else l'
     end.
-  Definition is_sels (l : list selection) : list selection :=
-    let res := flat_map is_sel l in
-    match l, res with _ :: _, [] => [placeholder] | _, _ => res end.
+  Definition is_sels (fuel : nat) (l : list selection) : list selection := is_set fuel l.
 End IncludeSkip.
 
+Definition include_skip_fuel (d : document) : nat := (2 * doc_size d + 4)%nat.
 Definition include_skip (vars : list (bytes * json)) (d : document) : document :=
   let vdefs := doc_vardefs d in
+  let fuel := include_skip_fuel d in
   map (fun def => match def with
                   | DOp o => DOp {| op_kind := op_kind o; op_name := op_name o; op_vars := op_vars o;
-                                    op_dirs := op_dirs o; op_sels := is_sels vars vdefs (op_sels o) |}
+                                    op_dirs := op_dirs o; op_sels := is_sels vars vdefs fuel (op_sels o) |}
                   | DFrag f => DFrag {| fr_name := fr_name f; fr_type := fr_type f; fr_dirs := fr_dirs f;
-                                        fr_sels := is_sels vars vdefs (fr_sels f) |}
+                                        fr_sels := is_sels vars vdefs fuel (fr_sels f) |}
                   end) d.
 
 (* ------------------------------------------------------------------ 2. fragment spread inlining *)
